@@ -14,6 +14,8 @@ type Explorer struct {
 	MaxDeviate int // non-default environment answers
 	MaxSteps   int
 	Races      bool
+	// Embedded marks a search that is one of very many small ones run by an enumeration harness (see verify).
+	Embedded bool
 	// Check is called for every completed execution. Returning false stops the subtree search.
 	Check func(r *Result) bool
 	// Deadline (zero = none): the search stops when reached and Capped is set.
@@ -117,6 +119,8 @@ func (e *Explorer) children(prefix []Choice, r *Result) [][]Choice {
 	return out
 }
 
+var embeddedVerified int
+
 // verify re-runs the first executions of a search and every suspicious one to make sure the schedule
 // determines the execution. A mismatch is an infrastructure error, never a violation.
 func (e *Explorer) verify(prefix []Choice, r *Result) {
@@ -126,6 +130,13 @@ func (e *Explorer) verify(prefix []Choice, r *Result) {
 	}
 	if e.Stats.Determinism >= 20 {
 		return
+	}
+	if e.Embedded {
+		// many tiny searches in one process (one per evaluated case): the re-runs are budgeted per process, not per search
+		if embeddedVerified >= 400 {
+			return
+		}
+		embeddedVerified++
 	}
 	e.Stats.Determinism++
 	r2 := Run(r.Choices, e.Body, RunOpts{MaxSteps: e.MaxSteps, Races: e.Races})
